@@ -41,6 +41,7 @@ ID = "C09"
 LEAN_TARGETS = ["AiuVerif.Props.C09"]
 THEOREMS = [
     "AiuVerif.C09.ids_paired",
+    "AiuVerif.C09.f_has_s",
     "AiuVerif.C09.placement",
     "AiuVerif.C09.no_helper_out",
     "AiuVerif.C09.extraction_consumes_helpers",
